@@ -285,3 +285,7 @@ def run(ctx):
     r16_2(ctx, fx)
     r16_3(ctx, fx)
     r16_4(ctx)
+    from rules import dirty
+    fxd = ctx.extract([F.lib_unit(n) for n in ("Linear_Expression.cc", "Linear_Expression_Impl.cc", "Sparse_Row.cc", "Dense_Row.cc", "Scalar_Products.cc", "CO_Tree.cc")]
+                      + [F.driver_unit("domains.cc", file_re=r"(Linear_Expression_Impl_templates|Linear_Expression_inlines|Linear_System_templates|Matrix_templates|Sparse_Row_templates)\.hh")])
+    dirty.run(ctx, "R16.5", fxd, lambda f: True, 10, "judged on the linear-expression, row and scalar-product sources (both Linear_Expression_Impl instantiations)")
